@@ -21,42 +21,50 @@ theorem accessor_fails_iff (k : Acc) (v : Val) :
     accessor k v = .fail k.failCode ↔ k.matches v.type = false := by
   unfold accessor
   cases hm : k.matches v.type <;> simp
-  split <;> simp
 
 /-- The only failure code an accessor can report is its own. -/
 theorem accessor_fail_code (k : Acc) (v : Val) (code : Nat) (h : accessor k v = .fail code) : code = k.failCode := by
   unfold accessor at h
   split at h
   · cases h; rfl
-  · split at h <;> cases h
+  · cases h
 
-/-- `accessor_contract` (partial: see the negation below). Outside the two null cells
-`bloc_literal(null string)` / `bloc_tabchar(null bytes)`, a typed accessor succeeds iff the type of
-the value matches, and when it succeeds the data pointer is NULL iff the value is null. -/
-theorem accessor_contract_partial (k : Acc) (v : Val)
-    (hD : ((k == .l || k == .x) && v.isNull) = false) :
+example : accessor .i (.str [104, 105]) = .fail Gen.EXC_RT_NOT_INTEGER := by decide
+
+/-- `accessor_contract`, the full statement, for all eight accessors and every value: a typed accessor
+succeeds iff the type of the value matches, and when it succeeds the data pointer is NULL iff the value is
+null. (Until `bloc_literal` / `bloc_tabchar` were repaired this held only outside the two cells
+`bloc_literal(null string)` / `bloc_tabchar(null bytes)`: theorem `accessor_contract_partial`, findings
+C15.literal_accessor_null_deref, C15.tabchar_accessor_null_deref, both fixed.) -/
+theorem accessor_contract (k : Acc) (v : Val) :
     ((∃ dn, accessor k v = .ok dn) ↔ k.matches v.type = true) ∧
     (∀ dn, accessor k v = .ok dn → dn = v.isNull) := by
   unfold accessor
-  cases hm : k.matches v.type <;> simp [hD]
+  cases hm : k.matches v.type <;> simp
 
-example : ((Acc.l == .l || Acc.l == .x) && (Val.str [104, 105]).isNull) = false ∧ Acc.l.matches (Val.str [104, 105]).type = true := by decide
+example : Acc.l.matches (Val.str [104, 105]).type = true := by decide
 example : accessor .l (.str [104, 105]) = .ok false := by decide
 example : accessor .n (.null Ty.num) = .ok true := by decide
 example : accessor .t (.tab { major := .int, level := 1 } [] [.int 5]) = .ok false := by decide
 
-/-- On the pinned tree the full statement is false: the documented result for a null string is
-`bloc_true` with `*buf = NULL`; `bloc_literal` / `bloc_tabchar` dereference the null pointer
-instead (known findings C15.literal_accessor_null_deref, C15.tabchar_accessor_null_deref). -/
-theorem accessor_contract_fails_on_null_literal :
-    ¬ (∀ (k : Acc) (v : Val), k.matches v.type = true → ∃ dn, accessor k v = .ok dn) := by
-  intro h
-  have := h .l (.null Ty.str) (by decide)
-  simp [accessor] at this
-  revert this; decide
+/-- The documented result on a null value of the right type — `bloc_true` with a NULL data pointer — for every
+accessor, `bloc_literal` and `bloc_tabchar` included (was: `accessor_contract_fails_on_null_literal`, the proved
+negation, when those two dereferenced the null pointer). -/
+theorem accessor_contract_holds_on_null (k : Acc) (v : Val) (hm : k.matches v.type = true) (hn : v.isNull = true) :
+    accessor k v = .ok true := by
+  simp [accessor, hm, hn]
 
-example : accessor .l (.null Ty.str) = .hazard := by decide
-example : accessor .x (.null Ty.raw) = .hazard := by decide
+example : accessor .l (.null Ty.str) = .ok true := by decide
+example : accessor .x (.null Ty.raw) = .ok true := by decide
+example : Acc.l.matches (Val.null Ty.str).type = true ∧ (Val.null Ty.str).isNull = true := by decide
+
+/-- Every value of a matching type is accepted (the positive form of the former negation witness). -/
+theorem accessor_succeeds_on_matching_type :
+    ∀ (k : Acc) (v : Val), k.matches v.type = true → ∃ dn, accessor k v = .ok dn := by
+  intro k v hm
+  exact ⟨v.isNull, by simp [accessor, hm]⟩
+
+example : ∃ dn, accessor .x (.null Ty.raw) = .ok dn := ⟨true, by decide⟩
 
 /-- No value is accepted by two different accessors: "succeed exactly on the matching type". -/
 theorem accessor_unique (k1 k2 : Acc) (ty : Ty) (h1 : k1.matches ty = true) (h2 : k2.matches ty = true) : k1 = k2 := by
@@ -89,11 +97,6 @@ theorem error_record_contract (s : State) (o : Op) (code : Nat) (h : (step s o).
     split
     · omega
     · rfl
-  · simp only [opAcc, Out.pre, Out.of] at h ⊢
-    (repeat' split at h) <;> simp_all
-    split
-    · simp_all
-    · rfl
 
 /-- Calls other than the two parse calls never touch the error record unless they fail. -/
 theorem success_keeps_record (s : State) (o : Op) (hp : isParse o = false) (h : (step s o).2.fail = none) :
@@ -107,7 +110,7 @@ theorem success_keeps_record (s : State) (o : Op) (hp : isParse o = false) (h : 
     | (simp only [opReg, opStore, opAssign, opAcc, opItem, opEval, opExec, opExec2, runIn, killBoxItems, killCtxItems, Out.pre, Out.of] at h ⊢; (repeat' split at h) <;> simp_all; done)
     | skip
   all_goals (
-    simp only [opReg, opVfree, opAcc, opEfree, opExec2, runIn, killBoxItems, killExprVals, Out.pre, Out.of] at h ⊢
+    simp only [opReg, opVfree, opEfree, opExec2, runIn, killBoxItems, killExprVals, Out.pre, Out.of] at h ⊢
     (repeat' split at h) <;> simp_all
     )
   all_goals ((repeat' split) <;> simp_all <;> (try omega))
@@ -234,7 +237,7 @@ theorem loaded_pointer_reads_same (c id : Nat) (ops : List Op) (s : State) (r : 
 values, a failing accessor, another context created, parsed in and freed), then the pointer still reads 42. -/
 example :
     let ops : List Op := [.cnew 0, .reg 0 0 "I1" .int 0, .vint 0 42, .store 0 0 0 true, .load 0 0 1,
-                          .vlit 2 none, .acc 2 .i true, .cnew 1, .xparse 1 0 (.bad 0) true, .cfree 1, .drop 0 3, .vdump 1]
+                          .vlit 2 none, .acc 2 .i, .cnew 1, .xparse 1 0 (.bad 0) true, .cfree 1, .drop 0 3, .vdump 1]
     ((runSeq State.init ops).2.getLast?.map (·.res)).isSome = true := by decide
 
 /-! ## api_script_agree -/
